@@ -112,7 +112,19 @@ def gen_convs(rng, k):
             else:
                 out.append(rng.choice(["u64", "i64", "String", "(u8, u8)", "()"]))
         return out
-    r = rng.below(6)
+    r = rng.below(7)
+    if r == 6:
+        # the same reference kind twice in one attribute: a typed list and the bare keyword, in either order (seed C08-k)
+        key, word = rng.choice([("o", "owned"), ("r", "ref"), ("m", "ref_mut")])
+        t = tys(1 + rng.below(2))
+        typed = f"{word}(" + ", ".join(t) + ")"
+        parts = [typed, word] if rng.chance(1, 2) else [word, typed]
+        sx = {"o": (0, []), "r": (0, []), "m": (0, [])}
+        sx[key] = (1, t)
+        if rng.chance(1, 3):
+            k2, w2 = rng.choice([x for x in (("o", "owned"), ("r", "ref"), ("m", "ref_mut")) if x[0] != key])
+            parts.insert(rng.below(len(parts) + 1), w2); sx[k2] = (1, [])
+        return "(" + ", ".join(parts) + ")", "(c " + " ".join(f"({k_} {c} " + " ".join(ty_sexp(x) for x in t_) + ")" for k_, (c, t_) in sx.items()) + ")"
     if r == 0:
         return "", "e"
     if r == 1:
